@@ -177,6 +177,12 @@ func (t *T) Build(zctx *zed.Context) (zed.Type, error) {
 	return nil, fmt.Errorf("bad type tree kind %q", t.K)
 }
 
+// synthetic leaf ids of the Lean model for values of enum and error types
+const (
+	idEnumLeaf  = 1000
+	idErrorLeaf = 1001
+)
+
 // V is a value tree.
 type V struct {
 	Null  bool   `json:"null,omitempty"`
@@ -288,12 +294,10 @@ func OfValue(typ zed.Type, b zcode.Bytes) (*V, error) {
 		}
 		return &V{K: "u", Tag: tag, Elems: []*V{e}}, nil
 	case *zed.TypeError:
-		// an error value is its inner value; kept positional as a one-element record
-		e, err := OfValue(t.Type, b)
-		if err != nil {
-			return nil, err
-		}
-		return &V{K: "r", Elems: []*V{e}}, nil
+		// opaque leaf: the shaper never looks inside an error value
+		return &V{K: "p", ID: idErrorLeaf, Bytes: hex.EncodeToString(b)}, nil
+	case *zed.TypeEnum:
+		return &V{K: "p", ID: idEnumLeaf, Bytes: hex.EncodeToString(b)}, nil
 	default:
 		return &V{K: "p", ID: zed.TypeUnder(typ).ID(), Bytes: hex.EncodeToString(b)}, nil
 	}
@@ -358,10 +362,21 @@ func (v *V) Encode(typ zed.Type, b *zcode.Builder) error {
 		}
 		b.EndContainer()
 	case *zed.TypeError:
-		if v.K != "r" || len(v.Elems) != 1 {
+		if v.K == "x" && len(v.Elems) == 1 {
+			// generator form: the inner value as a tree
+			return v.Elems[0].Encode(t.Type, b)
+		}
+		if v.K != "p" || v.ID != idErrorLeaf {
 			return fmt.Errorf("value does not fit error type")
 		}
-		return v.Elems[0].Encode(t.Type, b)
+		raw, err := hex.DecodeString(v.Bytes)
+		if err != nil {
+			return err
+		}
+		if raw == nil {
+			raw = []byte{}
+		}
+		b.Append(raw)
 	default:
 		if v.K != "p" {
 			return fmt.Errorf("value does not fit primitive type")
@@ -418,11 +433,6 @@ func Canon(t *T, v *V) string {
 			return "(bad-union)"
 		}
 		return "(u " + strconv.Itoa(v.Tag) + " " + Canon(u.Elems[v.Tag], v.Elems[0]) + ")"
-	case "e":
-		if v.K == "r" && len(v.Elems) == 1 {
-			return "(e " + Canon(u.Elems[0], v.Elems[0]) + ")"
-		}
-		return "(bad-error)"
 	default:
 		return fmt.Sprintf("(p %d %s)", v.ID, v.Bytes)
 	}
